@@ -852,9 +852,17 @@ fn run_engine(cs: &Case, sched_seed: u64, style: u8) -> RunOut {
         Ok(Ok(e)) => e,
     };
     if !cs.static_data.is_empty() {
-        let text: String = cs.static_data.iter().map(|t| nt_line(t) + "\n").collect();
-        if let Err(e) = guard(|| engine.add_static_ntriples(&text)) {
-            out.error = Some(RunErr::Panic { api: "add_static_ntriples", msg: e });
+        // every other case loads the static data with two calls (the second one meets a
+        // populated static store with cached statistics)
+        let cut = if cs.static_data.len() >= 2 && cs.feed.len() % 2 == 1 { cs.static_data.len() / 2 } else { cs.static_data.len() };
+        for part in [&cs.static_data[..cut], &cs.static_data[cut..]] {
+            if part.is_empty() {
+                continue;
+            }
+            let text: String = part.iter().map(|t| nt_line(t) + "\n").collect();
+            if let Err(e) = guard(|| engine.add_static_ntriples(&text)) {
+                out.error = Some(RunErr::Panic { api: "add_static_ntriples", msg: e });
+            }
         }
     }
 
